@@ -479,12 +479,12 @@ def corpus_cases(prop):
 
 
 def differential(ctx, cases, impl_cmd, model_cmd, oracle, nontrivial=None, classify=None,
-                 impl_env=None, what='correspondence model vs implementation', parallel=True, canon=None):
+                 impl_env=None, what='correspondence model vs implementation', parallel=True, canon=None, canon_model=None, jobs=None, canon_case=None):
     """run implementation harness and extracted model on the same case lines.
     oracle(case, impl_line) -> None | (key, description): the property itself evaluated on the
     implementation's answer alone."""
     t0 = time.time()
-    runner = run_lines_parallel if parallel else run_lines
+    runner = (lambda exe, lines, **kw: run_lines_parallel(exe, lines, jobs=jobs, **kw)) if parallel else run_lines
     rc_i, out_i, err_i = runner(impl_cmd, cases, env=impl_env)
     t1 = time.time()
     rc_m, out_m, err_m = runner(model_cmd, cases) if model_cmd else (0, None, '')
@@ -510,13 +510,16 @@ def differential(ctx, cases, impl_cmd, model_cmd, oracle, nontrivial=None, class
     seen = cov.setdefault('_seen', set())
     for i, c in enumerate(cases):
         a = out_i[i]
-        if canon:
-            a = canon(a)
         r = oracle(c, a)
+        if canon_case:
+            a = canon_case(c, a)
+        elif canon:
+            a = canon(a)
         if r:
             ctx.fail(r[0], r[1] + '\n  case: %s\n  impl: %s' % (c[:400], a[:400]), c)
         if out_m is not None:
-            b = canon(out_m[i]) if canon else out_m[i]
+            cm = canon_model or canon
+            b = cm(out_m[i]) if cm else out_m[i]
             if a != b:
                 ndiff += 1
                 if ndiff <= 5:
